@@ -72,6 +72,19 @@ class StateScenario(Scenario):
         srng = stream(seed, "schema")
         sd = schema.gen_header_schema(srng, g, w)
         values.add_defaults(srng, sd, g, ctx)
+        if self.prop == "C15":
+            # C15 is about rejected *values*.  A required field that has no usable default makes every
+            # load fail in validate() with an error naming that field (C11's business) before or instead
+            # of the rejected value, so the expected path would be ambiguous: not generated here.
+            from ..codec import dec as _dec
+            for node in values.all_leaf_nodes(sd):
+                o = node.get("o", {})
+                if o.get("required"):
+                    d = o.get("default")
+                    if isinstance(d, dict) and "$call" in d:
+                        d = d["$call"]
+                    if "default" not in o or not _dec(d):
+                        del o["required"]
         p_inv = {"C01": 0.35, "C06": 0.6, "C12": 0.3, "C15": 0.7}.get(self.prop, 0.4)
         return {"sd": sd, "ncfg": rng.choice([1, 1, 2]), "weights": self.weights(rng),
                 "p_invalid": rng.choice([p_inv, p_inv, 0.15]), "p_fault": rng.choice([0.0, 0.1, 0.3]),
@@ -559,7 +572,7 @@ class StateScenario(Scenario):
             rec.probe("set-rejected" + (":fault" if faulted else ""))
             self.check_unchanged(st, rec, s0, cfg, route, node["kind"])
             where, verdict = self.leaf_verdict(st, node, path, v, False)
-            self.check_rejection(st, rec, err, where, node, route, exact=(verdict != UNSPEC or where == path))
+            self.check_rejection(st, rec, err, where, node, route, exact=(verdict == REJ))
             if self.prop == "C12":
                 rec.check()
                 rec.relevant += 1
@@ -576,14 +589,19 @@ class StateScenario(Scenario):
                 node.get("o", {}).get("required") and not v):
             kf = node.get("kf") or {"kind": "any", "o": {}}
             vf = node.get("vf") or {"kind": "any", "o": {}}
+            bad = []
             for a, b in v.items():
                 ra = ops.expect_loaded(kf, a, st.ctx) if loaded else model.norm(kf, a, st.ctx)
                 rb = ops.expect_loaded(vf, b, st.ctx) if loaded else model.norm(vf, b, st.ctx)
                 if ra == REJ or rb == REJ:
-                    return "%s[%s]" % (path, a), REJ
-                if UNSPEC in (ra, rb):
+                    bad.append(a)
+                elif UNSPEC in (ra, rb):
                     return path, UNSPEC
-            return path, UNSPEC   # rejected as a whole (e.g. by the field's own validator)
+            if len(bad) == 1 and type(bad[0]) in (str, int, bool):
+                return "%s[%s]" % (path, bad[0]), REJ
+            # several offending entries (conversion and validation are separate passes, so which one is
+            # reported first is not defined), or rejected as a whole by the field's own validator
+            return path, UNSPEC
         if isinstance(r, OK):
             return path, OK
         return path, r
@@ -604,6 +622,8 @@ class StateScenario(Scenario):
                 elif any(not isinstance(x, dict) for x in v):
                     rej.append((p, node))
                 elif node.get("o", {}).get("required") and not v:
+                    rej.append((p, node))
+                elif model.validator_rejects(node, list(v)):
                     rej.append((p, node))
                 continue
             if not ops.loadable(node):
@@ -800,8 +820,9 @@ class StateScenario(Scenario):
         except Exception:  # noqa: BLE001
             rec.log("loads", "unwritable")
             return
+        if fmt != "xml":
+            tree = ops.parse_doc(fmt, doc, opts)   # what the document really says, in document order
         s0 = snapshot.snap(cfg, st.serials)
-        via_file = bool(op.get("file"))
         _, err = self._call(lambda: cfg.loads(doc, fmt, **opts))
         rec.log("loads", fmt, canon(tree), type(err).__name__ if err else "ok")
         rec.kind(fmt + (":ok" if err is None else ":rej"))
